@@ -185,7 +185,12 @@ func (e *ExecutorEngine) executeSubscription(ctx context.Context, buf *graphql.E
 
 func (e *ExecutorEngine) handleNonSubscriptionOperation(ctx context.Context, id string, executor Executor, eventHandler EventHandler) {
 	defer func() {
-		e.subCancellations.Cancel(id)
+		// Release the id only while it is still this operation's: once the operation was stopped its
+		// context is cancelled and the id is free again - by the time a slow Execute returns it may
+		// already belong to a new operation, which must not be cancelled in its place.
+		if ctx.Err() == nil {
+			e.subCancellations.Cancel(id)
+		}
 		err := e.executorPool.Put(executor)
 		if err != nil {
 			e.logger.Error("subscription.Handle.handleNonSubscriptionOperation()",
